@@ -14,3 +14,40 @@ UNITS = [
                     dict(name='_dbus_marshal_read_uint32/_dbus_unpack_uint32/_dbus_string_get_byte', file=BASIC, status='inlined', note='real code, loop-free')],
          assumptions=['DBusString representation invariant (precondition); start 8-aligned and len >= 16 as established by the loader loop (C11.F3)']),
 ]
+
+# ---- C01.5a: body validator == reference decoder, per constant signature (B) -------------------------
+BODYTUS = [dict(file=f) for f in (VAL, STR, REC, BASIC, 'dbus/dbus-signature.c')]
+# catalogue: every basic type; arrays of every element alignment; structs mixing alignments; nesting
+CATALOGUE_QUICK = ['y', 'b', 'n', 'q', 'i', 'u', 'x', 't', 'd', 's', 'o', 'g', 'h',
+                   'ay', 'ab', 'an', 'au', 'ax', 'ad', 'as', 'ao', 'ag', 'ah',
+                   'yu', 'yx', 'yn', 'sy', 'ys', 'gu', 'bb',
+                   '(yu)', '(yx)', 'y(y)', '(y(yu))', 'a(yu)', 'a(yy)', 'aay', 'aau', 'a{ys}', 'a{uy}', 'a(y(y))', 'ayay']
+
+
+def body_unit(sig, n, le, tier):
+    nm = 'C01.body.%s.%s%d' % (sig, 'le' if le else 'be', n)
+    UNITS.append(dict(name=nm, props=['C01', 'C10'], kind='B', route='plain', entry='harness', tus=BODYTUS,
+                      harness='harness/eq_body.c', extra_sources=[ASSERT, 'stubs/list_as_stack.c'],
+                      defines=['VERIF_N=%d' % n, 'VERIF_LE=%d' % le, 'VERIF_SIG="%s"' % sig], unwind=n + 3, timeout=1800, tier=tier,
+                      expect_s=30, trace_is_execution=True, replay_family='body', replay_fn='%s:%d' % (sig, le),
+                      bounds={'signature': sig, 'body_bytes': n, 'byte_order': 'little' if le else 'big'},
+                      functions=[dict(name='_dbus_validate_body_with_reason / validate_body_helper', file=VAL, status='bounded'),
+                                 dict(name='_dbus_type_reader_* (types-only reader)', file=REC, status='bounded', note='real code inlined'),
+                                 dict(name='_dbus_list_* in the signature validator', file='dbus/dbus-list.c', status='assumed', note='LIFO stack stub')],
+                      assumptions=['dbus-list behaves as a LIFO stack of integers in the signature validator (stub, not verified)']))
+
+
+# measured (16 cores, 10 jobs): string-typed content is validated byte by byte (UTF-8 / path / signature grammar) and dominates
+# the cost; bounds per signature are chosen so that each quick unit stays under ~2 minutes.
+QUICK_N = {'g': 8, 'gu': None, 'ag': None, 'as': None, 'ao': 10, 'a{ys}': 10, 's': 12, 'o': 12, 'sy': 12, 'ys': 12}
+THOROUGH_N = {'g': 12, 'gu': 12, 'ag': 10, 'as': 10, 'ao': 12, 'a{ys}': 12, 's': 16, 'o': 16, 'sy': 16, 'ys': 16}
+
+
+for _i, _sig in enumerate(CATALOGUE_QUICK):
+    _q = QUICK_N.get(_sig, 16)
+    _t = THOROUGH_N.get(_sig, 24)
+    if _q:
+        body_unit(_sig, _q, _i % 2, 'quick')          # byte orders alternate in the quick tier
+        body_unit(_sig, _q, 1 - _i % 2, 'thorough')
+    if _t != _q:
+        body_unit(_sig, _t, _i % 2, 'thorough')
